@@ -33,7 +33,14 @@ Next == /\ Len(hist) < MaxLen
              /\ OnlyWF => Legal(m, s)
              /\ m' = Step(m, s)
              /\ hist' = Append(hist, [s |-> s, ifasm |-> m'.ifasm, d |-> Len(m'.stk), errs |-> m'.errs,
-                                      warns |-> m'.warns])
+                                      warns |-> m'.warns,
+                                      \* what an EXITM placed right here (skeleton wrapped in a macro body) does:
+                                      \* executed only when assembling; then the IF stack is cut back to the depth at
+                                      \* macro entry (0) and the pass ends without a "missing ENDIF"
+                                      exitm |-> IF m'.ifasm
+                                                THEN (IF DoEndOfPass(DoRestoreIFs(m', 0)).errs = m'.errs /\ DoRestoreIFs(m', 0).ifasm
+                                                      THEN "clean" ELSE "dirty")
+                                                ELSE "skipped"])
 
 View == <<m.ifasm, m.stk>>
 TCover == PrintT(<<"TR", ToJson(hist')>>)
